@@ -117,7 +117,12 @@ Record kconfig := {
   cf_legacy : bool;            (* legacy-cookie *)
   cf_rl_enabled : bool;        (* ratelimit.enabled *)
   cf_rl_logins : Z;            (* ratelimit.logins *)
-  cf_rl_window : Z             (* ratelimit.window, nanoseconds *)
+  cf_rl_window : Z;            (* ratelimit.window, nanoseconds *)
+  (* variants of the code under test (lib/code_flags.json), not deployment settings *)
+  cf_seg_prefix : bool;        (* ingress.MatchingPath: false = strings.HasPrefix (before a1203b1),
+                                  true = hasPathPrefix, prefix on a segment boundary *)
+  cf_rl_ceil : bool            (* applyLoginRateLimit Max-Age: false = int(window.Seconds()) (before c75583b),
+                                  true = int(math.Ceil(window.Seconds())) *)
 }.
 
 Definition s_lax : bytes := [76; 97; 120]%N.
@@ -195,16 +200,24 @@ Definition parse_ingresses (c : kconfig) : option (list bytes) := option_map (ma
 Definition matching_ingress (ings : list (bytes * bytes)) (hostport mp : bytes) : bool :=
   existsb (fun hp => beq (fst hp) hostport && beq (snd hp) mp) ings.
 
-(* Ingresses.MatchingPath: longest non-empty ingress path that is a string prefix of the krequest path *)
-Fixpoint matching_path_go (paths : list bytes) (req : bytes) (result : bytes) : bytes :=
+(* ingress.hasPathPrefix: path == prefix || strings.HasPrefix(path, prefix+"/") *)
+Definition has_path_prefix (path prefix : bytes) : bool := beq path prefix || has_prefix path (prefix ++ [47%N]).
+
+(* the prefix test of Ingresses.MatchingPath in the two variants of the code *)
+Definition path_prefix_test (seg : bool) (req p : bytes) : bool :=
+  if seg then has_path_prefix req p else has_prefix req p.
+
+(* Ingresses.MatchingPath: longest non-empty ingress path that is a prefix of the request path
+   (seg = false: as a string; seg = true: ending on a segment boundary) *)
+Fixpoint matching_path_go (seg : bool) (paths : list bytes) (req : bytes) (result : bytes) : bytes :=
   match paths with
   | [] => result
   | p :: r =>
-    if negb (nonempty p) then matching_path_go r req result
-    else if has_prefix req p && (Nat.ltb (length result) (length p)) then matching_path_go r req p
-    else matching_path_go r req result
+    if negb (nonempty p) then matching_path_go seg r req result
+    else if path_prefix_test seg req p && (Nat.ltb (length result) (length p)) then matching_path_go seg r req p
+    else matching_path_go seg r req result
   end.
-Definition matching_path (paths : list bytes) (req : bytes) : bytes := matching_path_go paths req [].
+Definition matching_path (seg : bool) (paths : list bytes) (req : bytes) : bytes := matching_path_go seg paths req [].
 
 (* ------------------------------------------------------------------ cookie names (cookie.go, main.go) *)
 
@@ -329,8 +342,13 @@ Definition auto_retries (rc : option bytes) (status : Z) : bool :=
 
 (* ------------------------------------------------------------------ applyLoginRateLimit *)
 
-(* time.Duration.Seconds() truncated by int(): whole seconds of the window (window >= 0) *)
-Definition window_seconds (c : kconfig) : Z := Z.quot (cf_rl_window c) 1000000000.
+(* Max-Age of the logincount cookie in seconds.
+   rl_ceil = false: int(window.Seconds()), truncation towards zero;
+   rl_ceil = true:  int(math.Ceil(window.Seconds())): rounded up for a non-negative window (ceiling of a negative
+   number is truncation towards zero) *)
+Definition window_seconds (c : kconfig) : Z :=
+  let w := cf_rl_window c in
+  if cf_rl_ceil c && (0 <=? w) then Z.quot (w + 999999999) 1000000000 else Z.quot w 1000000000.
 
 Inductive rl_result :=
 | RlSkip                      (* disabled or no session: nothing written *)
